@@ -516,7 +516,7 @@ def _run(ctx, LFR, tap):
     exh_len = 6
     exh_cfgs = EXH_CFGS[:3] if quick else EXH_CFGS
     exh_lens = [6] * len(exh_cfgs) if quick else [7, 7] + [6] * (len(exh_cfgs) - 2)
-    n_random = 36 if quick else 1500
+    n_random = 36 if quick else 900
     n_twin = 24 if quick else 600
     n_long = 10 if quick else 72
     ctx.rule = ("exhaustive: every (y_true,y_pred) sequence of length <= %d (thorough: <= 7 for the first two) (prefix tree, all 4^k nodes) for %d configurations; "
